@@ -64,6 +64,9 @@ type EpochSpec struct {
 	Fanout  int         `json:"fanout"` // next-link fan-out of multi-frame payloads (default 5)
 	Blocks  []BlockSpec `json:"blocks"`
 	Trailer bool        `json:"trailer"` // write Subset + Epoch nodes (needed by `index all`)
+	// LongHeader: the Epoch node (the CAR's root) is addressed by an identity-multihash CID, which makes the CAR header
+	// longer than 127 bytes (its length prefix becomes a two-byte varint)
+	LongHeader bool `json:"longheader"`
 }
 
 type Section struct {
@@ -147,6 +150,7 @@ type builder struct {
 	buf    bytes.Buffer
 	out    *Built
 	offset uint64
+	wide   bool // next put: sha2-512 CID
 }
 
 func encode(v any) []byte {
@@ -188,6 +192,18 @@ func cidOf(data []byte) cid.Cid {
 func (b *builder) put(kind int, v any) (cid.Cid, int) {
 	data := encode(v)
 	c := cidOf(data)
+	if b.wide {
+		var err error
+		if c, err = (cid.V1Builder{MhLength: -1, MhType: uint64(multicodec.Sha2_512), Codec: uint64(multicodec.DagCbor)}).Sum(data); err != nil {
+			panic(err)
+		}
+	}
+	if kind == 4 && b.spec.LongHeader {
+		var err error
+		if c, err = (cid.V1Builder{MhLength: -1, MhType: uint64(multicodec.Identity), Codec: uint64(multicodec.DagCbor)}).Sum(data); err != nil {
+			panic(err)
+		}
+	}
 	before := b.buf.Len()
 	if err := util.LdWrite(&b.buf, c.Bytes(), data); err != nil {
 		panic(err)
@@ -244,14 +260,29 @@ func (b *builder) frames(payload []byte, n int) ipldbindcode.DataFrame {
 
 // Build writes the CAR to path.
 func Build(spec EpochSpec, path string) (*Built, error) {
-	b := &builder{spec: spec, out: &Built{Spec: spec, CarPath: path, TxBySig: map[solana.Signature]*TxTruth{}}}
-	// header size is needed before writing sections: header with one root (sha256 dag-cbor cid) has a fixed size
-	placeholder := cidOf([]byte("placeholder"))
+	return build(spec, path, 0)
+}
+
+func headerLen(root cid.Cid) (uint64, error) {
 	var hb bytes.Buffer
-	if err := carv1.WriteHeader(&carv1.CarHeader{Roots: []cid.Cid{placeholder}, Version: 1}, &hb); err != nil {
-		return nil, err
+	if err := carv1.WriteHeader(&carv1.CarHeader{Roots: []cid.Cid{root}, Version: 1}, &hb); err != nil {
+		return 0, err
 	}
-	b.out.HeaderSize = uint64(hb.Len())
+	return uint64(hb.Len()), nil
+}
+
+func build(spec EpochSpec, path string, hdr uint64) (*Built, error) {
+	b := &builder{spec: spec, out: &Built{Spec: spec, CarPath: path, TxBySig: map[solana.Signature]*TxTruth{}}}
+	// header size is needed before writing sections: header with one root (sha256 dag-cbor cid) has a fixed size; with
+	// another kind of root CID the first pass learns the root and a second pass is made with the right header size
+	placeholder := cidOf([]byte("placeholder"))
+	if hdr == 0 {
+		var err error
+		if hdr, err = headerLen(placeholder); err != nil {
+			return nil, err
+		}
+	}
+	b.out.HeaderSize = hdr
 	b.offset = b.out.HeaderSize
 
 	var blockLinks ipldbindcode.List__Link
@@ -311,9 +342,23 @@ func Build(spec EpochSpec, path string) (*Built, error) {
 			blockLinks = ipldbindcode.List__Link{}
 		}
 		sc, _ := b.put(3, &ipldbindcode.Subset{Kind: 3, First: first, Last: last, Blocks: blockLinks})
-		root, _ = b.put(4, &ipldbindcode.Epoch{Kind: 4, Epoch: int(spec.Epoch), Subsets: ipldbindcode.List__Link{cidlink.Link{Cid: sc}}})
+		subsets := ipldbindcode.List__Link{cidlink.Link{Cid: sc}}
+		if spec.LongHeader {
+			// one further (empty) subset addressed by a sha2-512 CID: the Epoch node, and with it the identity CID and the
+			// header, grows past 127 bytes (while the index file names, which embed the root CID, stay below 255 characters)
+			b.wide = true
+			ec, _ := b.put(3, &ipldbindcode.Subset{Kind: 3, First: last + 1, Last: last + 1, Blocks: ipldbindcode.List__Link{}})
+			b.wide = false
+			subsets = append(subsets, cidlink.Link{Cid: ec})
+		}
+		root, _ = b.put(4, &ipldbindcode.Epoch{Kind: 4, Epoch: int(spec.Epoch), Subsets: subsets})
 	}
 	b.out.Root = root
+	if actual, err := headerLen(root); err != nil {
+		return nil, err
+	} else if actual != b.out.HeaderSize {
+		return build(spec, path, actual)
+	}
 	f, err := os.Create(path)
 	if err != nil {
 		return nil, err
